@@ -40,6 +40,7 @@ type SD struct {
 	Pos        int  // next undelivered offset (strong), or tracked offset (weak)
 	PosKnown   bool // weak mode: position located in S
 	fedEv      []int32
+	FedHigh    int
 	openFed    bool
 	Delivered  int
 	Skipped    int
@@ -193,7 +194,9 @@ func (h *Harness) Deliver(s *Stream, d *Dir, skip int, b []byte, start, end bool
 	x := h.sdOf(s, d)
 	first := x.Deliveries == 0
 	x.Deliveries++
-	if skip < -1 {
+	if skip < -1 && h.Strong {
+		// (in runs that re-open a 4-tuple, a late segment of the previous
+		// incarnation can legitimately sit "behind" the new one)
 		c.Fail("gaps", "bad-skip", "delivery", "skip=%d", skip)
 	}
 	if skip == -1 && x.SynFed {
